@@ -399,7 +399,7 @@ Section Tracked.
         try reflexivity; try (intros E; exact E).
       clear K. revert tp Htp. induction ids as [|i ids IH]; intros tp Htp; cbn; [exact Htp|].
       apply IH. apply topic_put_TJ, Htp.
-    - cbn. exact H.
+    - destruct (find_client s k); cbn; exact H.
     - destruct (find_client s k) as [kl|]; cbn; [|exact H].
       destruct ((k_state kl =? st_init) && k_alive kl); cbn; [|exact H].
       apply J_pump_topic. apply J_upd_client. apply J_upd_chan; [apply J_ensure_chan, H|apply Mono_clients].
